@@ -114,6 +114,18 @@ def enumerate_cases(tier, seed):
     yield {"mode": "live", "servertype": "ThreadingTCPServer", "log": "file-strict"}
     # every argument-part mutation for a script and for a plain file, through every form (in-process)
     site = [["run.sh", {"kind": "exec"}], ["readme.txt", {"kind": "txt", "content": "hello\n"}]]
+    # menus that are FILES ('*.gophermap'), on disk and as archive members, through every form
+    mapsite = [["top.gophermap", {"kind": "mapfile", "content": "iWelcome\n0Read me\treadme.txt\n1Sub\t/sub\n"}],
+               ["readme.txt", {"kind": "txt", "content": "hello\n"}],
+               ["arc.zip", {"kind": "zip", "items": [["menu.gophermap", {"kind": "mapfile", "content": "iIn the archive\n0Member\tm.txt\n"}],
+                                                       ["m.txt", {"kind": "txt", "content": "member\n"}]]}]]
+    nobj = len(sites.objects(mapsite))
+    for target in range(1, 5 * nobj + 1):
+        if target % 5 == 0 or target > nobj and (target % nobj) in [t % nobj for t in range(1, target) if t % 5]:
+            continue
+        for form in FORMS:
+            yield {"mode": "single", "full": True, "site": mapsite,
+                   "req": {"target": target, "mut": "none", "form": form, "raw": None, "rawtls": False, "search": None, "bare": False}}
     for target in (2, 1):
         for mut in ("qmark", "bar", "qquote", "barquote", "qbslash", "qshell"):
             for form in FORMS:
